@@ -870,7 +870,14 @@ def _event(rng: random.Random, mode: str, flex_p: float) -> dict:
                 'name': pick_str(rng, CHO_ALPHA, ['lid_raiser', 'jaw drop'], 1, 6), 'active': rng.random() < 0.7,
                 'min': f32(rng.choice([0.0, 0.0, rng.uniform(-1, 0)])), 'max': f32(rng.choice([1.0, 1.0, rng.uniform(0, 2)])),
                 'mag': _samples(rng, mode, True), 'dir?': _samples(rng, mode, True) if rng.random() < 0.4 else None,
+                'left?': _edge(rng, mode), 'right?': _edge(rng, mode),          # text only (None in binary mode)
             })
+        if mode == 'text' and rng.random() < 0.4:
+            ev['def_curve'] = _curve_type(rng)      # written as defaultcurvetype=... on the flexanimations line; samples of that type omit it
+            for f in ev['flex']:
+                for smp in f['mag'] + (f['dir?'] or []):
+                    if rng.random() < 0.5:
+                        smp['curve'] = list(ev['def_curve'])        # a sample of exactly the default type: written without a type
     return ev
 
 
@@ -938,7 +945,9 @@ def _mk_event(e: dict):
         absolute_playback_tags=[C.AbsoluteTag(t[0], _clamp01(t[1])) for t in e['abs_play']],
         absolute_shifted_tags=[C.AbsoluteTag(t[0], _clamp01(t[1])) for t in e['abs_shift']],
         flex_anim_tracks=[C.FlexAnimTrack(name=f['name'], active=f['active'], min=f['min'], max=f['max'], mag_track=_mk_samples(f['mag']),
-                                          dir_track=_mk_samples(f['dir?']) if f['dir?'] is not None else None) for f in e['flex']],
+                                          dir_track=_mk_samples(f['dir?']) if f['dir?'] is not None else None,
+                                          left=_mk_edge(f.get('left?')), right=_mk_edge(f.get('right?'))) for f in e['flex']],
+        default_curve_type=_ct(e.get('def_curve') or [0, 0]),
         pitch=max(-100, min(100, e['pitch'])), yaw=max(-100, min(100, e['yaw'])),
     )
     k = e['kind']
